@@ -1,12 +1,16 @@
-(* Extraction of the executable model and specification functions to OCaml (ExtrOcamlBasic + ExtrOcamlString only;
-   Z, N, positive and nat stay inductive; no Extract Constant). Depends on gen/, Model/ and Spec/ only, never on
+(* Extraction of the executable model and specification functions to OCaml (ExtrOcamlBasic + ExtrOcamlString;
+   Z, N, positive and nat stay inductive; one Extract Constant, for List.rev, below). Depends on gen/, Model/ and Spec/ only, never on
    Proofs/ or Props/, so the correspondence check and the search still run when a proof no longer checks. *)
 Require Import Tables Parser Render Decode Driver Api PgModel.
 Require Lex.
-Require Import Shape Build Printer Scope Count Guard DecodedShape QuerySem SqlSem Probes Cst Inferable SameKind.
+Require Import Shape Build Printer Scope Count Guard DecodedShape QuerySem SqlSem Probes Cst Inferable SameKind SqlFrag.
 Require Extraction.
 Require Import ExtrOcamlBasic ExtrOcamlString.
 Extraction Blacklist List String Lex Parser Printf.
+(* The one Extract Constant of the development: the standard library's List.rev (rev l ++ [x], quadratic) runs as OCaml's
+   own linear List.rev on the extracted (native) list type. Same function; without it a 64 KB quoted value costs 2*10^9
+   steps per lexer call. Listed in the trusted base (DESIGN.md). *)
+Extract Constant List.rev => "Stdlib.List.rev".
 Extraction "model.ml"
   Tables.toktype_order Tables.operator_order Tables.reducer_order Tables.symbols Tables.terminal_tokens
   Tables.from_string Tables.to_string Tables.validators Tables.renderers Tables.shared_fns Tables.postgres_own_fns
@@ -19,4 +23,4 @@ Extraction "model.ml"
   PgModel.pg_lex PgModel.pg_parse PgModel.pg_read
   Shape.wf Printer.pr Printer.want Scope.scope Scope.clean Count.qcnt Guard.gok DecodedShape.dsh
   QuerySem.qsem QuerySem.leaf_const QuerySem.q_of_float_bits QuerySem.field_of QuerySem.is_star QuerySem.wild_match
-  SqlSem.ssem SqlSem.sim_match SqlSem.q_of_decimal Probes.num_probes Probes.q_lt Probes.q_eq Cst.cst_e Inferable.ki_b SameKind.sk_e.
+  SqlSem.ssem SqlSem.sim_match SqlSem.q_of_decimal Probes.num_probes Probes.q_lt Probes.q_eq Cst.cst_e Inferable.ki_b SameKind.sk_e SqlFrag.tr SqlFrag.side.
